@@ -48,7 +48,7 @@ RULE = (
     "min_amount / ref, each as a literal or a parameter - one of them of a custom (alias) type -, single and multi: 144 templates), a redex sweep (small "
     "templates: every rewrite rule of the reducer - add, sub, negate, property access "
     "on list / struct / tuple / map literals, positions a multiple of 2^64 away from real ones included - met by every class of operand: a constant, a closed expression that folds, "
-    "a pending parameter, an expression that folds once the argument is there, a substituted parameter, NoOp wrappers) "
+    "a pending parameter, an expression that folds once the argument is there, a substituted parameter, NoOp wrappers), a concat sweep (every pair of operand classes), a coercion sweep (each of the four coercions over 14 operand classes: nothing, scalars, containers, assets, UTxO sets with and without datum, pending), an arg-kind sweep (a parameter of each of the 12 declared types met by an argument of each of the 9 kinds - texts and UTxO sets included - in a datum, behind a coercion and inside a list: 324 templates) "
     "and type-directed random TIR templates (parameters, inputs, fees, compiler ops with parameter "
     "operands, locals-like wrappers) with type-correct args, UTxO sets and a fee; for each, every permutation "
     "of the stages {args, inputs, fees, compiler-ops} x every subset of reduce positions (quick: a third, "
